@@ -360,6 +360,48 @@ func init() {
 			m.schedPoint("once done")
 			return nil
 		},
+		// sync.Pool by contract: Get returns New() or ANY object handed to Put earlier and not yet taken (the choice
+		// is a decision of the path); objects are never dropped, which only widens the set of behaviours
+		"(*sync.Pool).Put": func(m *Machine, c *frame, fn *ssa.Function, a []Value) Value {
+			p := a[0].(PtrV)
+			if p.Obj == nil {
+				m.runtimePanic("runtime error: invalid memory address or nil pointer dereference")
+			}
+			if iv, ok := a[1].(IfaceV); ok && iv.T == nil {
+				return nil
+			}
+			if m.pools == nil {
+				m.pools = map[*Object][]Value{}
+			}
+			m.pools[p.Obj] = append(append([]Value{}, m.pools[p.Obj]...), a[1])
+			return nil
+		},
+		"(*sync.Pool).Get": func(m *Machine, c *frame, fn *ssa.Function, a []Value) Value {
+			p := a[0].(PtrV)
+			if p.Obj == nil {
+				m.runtimePanic("runtime error: invalid memory address or nil pointer dereference")
+			}
+			items := m.pools[p.Obj]
+			k := m.Choose(len(items) + 1)
+			if k < len(items) {
+				v := items[k]
+				ni := append([]Value{}, items[:k]...)
+				ni = append(ni, items[k+1:]...)
+				m.pools[p.Obj] = ni
+				return v
+			}
+			// New
+			st := under(p.Obj.Typ).(*types.Struct)
+			sv := getPath(p.Obj.Val, p.Path).(StructV)
+			for i := 0; i < st.NumFields(); i++ {
+				if st.Field(i).Name() == "New" {
+					if f, ok := sv[i].(FuncV); ok && (f.Fn != nil || f.Native != nil) {
+						return m.call(c, f, nil, 0)
+					}
+				}
+			}
+			return IfaceV{}
+		},
 		"(*sync.WaitGroup).Add": func(m *Machine, c *frame, fn *ssa.Function, a []Value) Value {
 			m.unsupported("sync.WaitGroup")
 			return nil
@@ -428,6 +470,24 @@ func init() {
 		"log.Printf": fmtNoop2, "log.Println": fmtNoop2, "log.Print": fmtNoop2,
 
 		// ---------------- math: bit casts of concrete floats (the real ones go through unsafe.Pointer)
+		// maps.clone is implemented by the runtime: a shallow copy, nil stays nil
+		"maps.clone": func(m *Machine, c *frame, fn *ssa.Function, a []Value) Value {
+			iv, ok := a[0].(IfaceV)
+			if !ok {
+				m.unsupported("maps.clone of a non-interface value")
+			}
+			mv, ok := iv.V.(MapV)
+			if !ok {
+				m.unsupported("maps.clone of a non-map")
+			}
+			if mv.M == nil {
+				return iv
+			}
+			m.nextID++
+			nm := &MapObj{ID: m.nextID, KeyT: mv.M.KeyT, ValT: mv.M.ValT}
+			nm.Entries = append([]MapEntry{}, mv.M.Entries...)
+			return IfaceV{T: iv.T, V: MapV{nm}}
+		},
 		// reflect: only what option.Of needs - the kind of a dynamic value and whether it is nil
 		"reflect.ValueOf": func(m *Machine, c *frame, fn *ssa.Function, a []Value) Value {
 			iv, ok := a[0].(IfaceV)
